@@ -11,7 +11,7 @@ import (
 )
 
 var queueFaultKinds = []string{
-	"preemptions", "stall_steps", "access_stalls", "park_on_full_channel", "park_on_empty_channel", "park_on_held_mutex", "park_on_waitgroup",
+	"preemptions", "clock_jumps", "stall_steps", "access_stalls", "park_on_full_channel", "park_on_empty_channel", "park_on_held_mutex", "park_on_waitgroup",
 	"close_while_receiver_parked", "close_while_sender_parked",
 	"channel_replaced_while_sender_parked", "channel_replaced_while_receiver_parked", "channel_replaced_before_close",
 	"removeall_while_call_in_flight", "close_while_call_in_flight",
